@@ -878,6 +878,10 @@ class Interpreter(Interp):
             hook = self.method_tables.get((obj.t.sort().name(), "__getitem__"))
             if hook:
                 return hook(self, obj, idx)
+            if obj.t.sort() == z3.StringSort() and isinstance(idx, int) and idx >= 0:
+                if not self.eng.branch(z3.Length(obj.t) > idx, f"strlen>{idx}"):
+                    raise exc("IndexError", "string index out of range")
+                return SV(z3.SubString(obj.t, idx, 1))
         raise OutOfReach(f"subscript on {type(obj).__name__}")
 
     def getslice(self, obj, lo, hi, st):
@@ -1177,11 +1181,23 @@ _PART_METHODS = {}
 
 
 def _str_startswith(interp, s, prefix):
+    if isinstance(prefix, (tuple, list)):
+        return SV(z3.Or(*[z3.PrefixOf(p.t if isinstance(p, SV) else z3.StringVal(p), s.t) for p in prefix]))
     p = prefix.t if isinstance(prefix, SV) else z3.StringVal(prefix)
     return SV(z3.PrefixOf(p, s.t))
 
 
-_STR_METHODS = {"startswith": _str_startswith}
+def _str_count(interp, s, sub):
+    if sub == ".":
+        # only "contains a dot or not" is expressible: returned as 0 / positive
+        n = interp.eng.fresh("count", z3.IntSort())
+        interp.eng.assume(n >= 0)
+        interp.eng.assume((n == 0) == z3.Not(z3.Contains(s.t, z3.StringVal("."))))
+        return SV(n)
+    raise OutOfReach("str.count")
+
+
+_STR_METHODS = {"startswith": _str_startswith, "count": _str_count}
 
 
 def _dict_get(interp, d, k, default=None):
